@@ -11,6 +11,18 @@ CLAIMED = {
          "Theorems over all trees/forests: the sampler model is exactly the uniform law on forders F, fcount F = |forders F|, every enumerated order is a permutation respecting the ancestor constraint; the model is tied to the code by comparing, for every tree over <= 4 points (all outlier subsets) and random larger ones, the exact outcome distribution of RootPermutationDistribution.sample (all shuffles enumerated), log_pdf and a brute-force enumeration with the model evaluated by vm_compute.",
          "Urn model of rng.shuffle on sentinels is a modelling step (validated exhaustively on the enumerated trees); completeness of forders w.r.t. the compatibility predicate validated by brute force, not yet proved; numpy semantics trusted.",
          "DESIGN.md section 6 C09"),
+ "C01": ("Coq proof (i-SIR invariance for every particle count; general resampling in progress) + exact transition matrices of the real particle-Gibbs update (every random outcome enumerated) checked for pi P = pi",
+         "Theorem C01_isir_invariant: for every proposal Q, positive weights w and particle count, the conditional-SMC update without resampling leaves gamma = w*Q invariant. The implementation is decided by computing, for every start tree over 1-2 (thorough: 3) data points, the EXACT outcome distribution of ParticleGibbsTreeSampler.sample_tree under both wirings (run.py and library), all three proposals, outliers on/off, alpha/particles/threshold grids, and testing max|pi P - pi| <= 1e-9 against exp(log_p_one).",
+         "The theorem covers the threshold-0 scheme; adaptive resampling is validated exactly on the enumerated configurations (proof in progress). Enumerating RNG assumes numpy's laws.",
+         "DESIGN.md section 6 C01"),
+ "C04": ("Coq proof (Gibbs-on-fibers invariance, auxiliary-mixture and composition lemmas, closed candidate set of the data-point move, refutation witnesses) + exact transition matrices of the three real moves checked for pi P = pi",
+         "Theorems for every finite state space: a Gibbs redraw on a partition into fibers with state-independent candidate lists leaves the target invariant; mixtures over an independent auxiliary choice and compositions of invariant kernels are invariant; the data-point move's candidate list is closed. The real DataPointSampler / PruneRegraphSampler / ParticleGibbsSubtreeSampler are decided by exact transition matrices from every start tree over 2-3 (thorough: 4) data points.",
+         "Subtree move: no theorem beyond the whole-tree case (C01); its state-dependent subtree choice is a recorded known finding (3+ data points). Tree-level candidate enumeration of prune-regraft is validated, not proved.",
+         "DESIGN.md section 6 C04"),
+ "C08": ("exact enumeration of every proposal draw against an independent placement oracle + Coq distribution algebra (proposal model in progress)",
+         "For every parent state over <= 2 (thorough: 3) data points incl. empty and outliers-only, every proposal kind, outlier proposal on/off, with/without permutation density: the exact outcome distribution of proposal.sample(), log_p on every outcome and create_particle's log_w are compared with an independent enumeration of all placements and with the target ratio.",
+         "Coq side currently only the distribution algebra (mass/uniform); the per-kind proposal model and its mass-one/faithfulness theorems are in progress.",
+         "DESIGN.md section 6 C08"),
 }
 NOT_YET = "check not built yet in this round (work in progress; see DESIGN.md section 9 build order)"
 
@@ -38,7 +50,7 @@ def main():
             "guard": "PHYCLONE_VERIF",
             "enable": "export PHYCLONE_VERIF=1 (set by ./check); no build step: the harness imports /repo's working tree afresh in a new process",
             "baseline_off_cmd": "cd /repo && env -u PHYCLONE_VERIF /venv/bin/python -m pytest -ra -q -p no:cacheprovider --timeout=900 --continue-on-collection-errors",
-            "source_commits": [],
+            "source_commits": ["4bd5f68"],
             "add_only": True,
         },
         "engines": [{"name": "coq+harness", "path": "/verif/check", "serves_properties": [c["property_id"] for c in checks],
